@@ -62,6 +62,26 @@ def _pipeline(ck, p, byk):
         upd = _find(f, arm, "update_document_from_file") + _find(f, arm, "update_document") + _find(f, arm, "refresh_document")
         pub = _find(f, arm, "publish_diagnostics")
         app = [(bi, t) for bi, t in f.calls() if bi in arm and inst_of(t).endswith("mutable_dictionary::{impl}::append_word")]
+        via_helper = None
+        if not upd and not pub:
+            # refresh + publish extracted into one awaited async helper (new since the reference tree)
+            from ..common import new_async_helper, helper_stage_calls
+            for hb, ht in f.calls():
+                if hb not in arm:
+                    continue
+                body = new_async_helper(p, ht)
+                if body is None or not awaited(f, hb):
+                    continue
+                st_ = helper_stage_calls(p, body, ("refresh_document", "update_document", "update_document_from_file", "publish_diagnostics"))
+                names = [x[0] for x in st_]
+                if len(names) == 2 and names[0] != "publish_diagnostics" and names[1] == "publish_diagnostics":
+                    hpv = Prov(body)
+                    same_url = all("url" in str(arg_fields(hpv, x[2]["args"][1])) or ("arg", 1) in flatten(hpv.trace_operand(x[2]["args"][1])) for x in st_)
+                    if same_url:
+                        via_helper = (hb, ht, names[0])
+            if via_helper:
+                upd = [(via_helper[0], via_helper[1])]
+                pub = [(via_helper[0], via_helper[1])]
         stages = [("load", load), ("append_word", app), ("save", save), ("refresh", upd), ("publish", pub)]
         bad = [n for n, c in stages if len(c) != 1]
         if bad:
@@ -70,12 +90,12 @@ def _pipeline(ck, p, byk):
         (lb, lt), (ab, at), (sb, st), (ub, ut), (pb, pt) = load[0], app[0], save[0], upd[0], pub[0]
         ck.callsites += 5
         # order + awaited
-        seq = [lb, ab, sb, ub, pb]
+        seq = [lb, ab, sb, ub, pb] if not via_helper else [lb, ab, sb, ub]
         order = all(cfg.dominates(a, b) and a != b for a, b in zip(seq, seq[1:]))
         polls = {n: [x for x in awaited(f, b) if x in arm] for n, b in (("load", lb), ("save", sb), ("refresh", ub), ("publish", pb))}
         aw = all(polls.values())
         # each await completes before the next stage starts: the poll site dominates the next stage
-        aw_order = aw and cfg.dominates(polls["load"][0], ab) and cfg.dominates(polls["save"][0], ub) and cfg.dominates(polls["refresh"][0], pb)
+        aw_order = aw and cfg.dominates(polls["load"][0], ab) and cfg.dominates(polls["save"][0], ub) and (via_helper is not None or cfg.dominates(polls["refresh"][0], pb))
         ck.decide(rule, "%s:order" % lit, order and aw_order, f.loc(lt["ln"]), "load -> append_word -> save -> refresh -> publish dominate each other=%s; every async stage is awaited before the next begins=%s" % (order, aw_order))
         # after the word is appended nothing can skip save / refresh / publish
         skip = []
